@@ -115,6 +115,13 @@ func genInject(seed uint64, n int, out string) {
 			// each +http setting holds a file watcher (an inotify instance): only a fixed handful of combinations
 			s.name = wire.Pick(r, httpSettings)
 		}
+		// a pod that names a template of an extra rendering is admitted under that rendering (so that it is injected, not refused)
+		switch strings.ReplaceAll(pod.Annotations["inject.istio.io/templates"], " ", "") {
+		case "custom", "sidecar,custom":
+			s.name = "custom" + s.name[len(strings.Split(s.name, "+")[0]):]
+		case "spire":
+			s.name = "spire" + s.name[len(strings.Split(s.name, "+")[0]):]
+		}
 		// namespace of the admission request; the pod's own namespace is set separately (genPod)
 		ns := wire.Pick(r, []string{"default", "default", "", "test-ns", "istio-system"})
 		if r.Chance(1, 8) {
@@ -131,7 +138,7 @@ func genInject(seed uint64, n int, out string) {
 			switch {
 			case r.Chance(1, 4):
 				wrap += "@file"
-			case r.Chance(1, 5) && wrap != "cronjob":
+			case r.Chance(1, 5):
 				wrap += "@injector"
 			}
 			o.Line("case", fmt.Sprint(c), "inject")
@@ -172,9 +179,15 @@ func genProbe(r *wire.Rng, ports []corev1.ContainerPort) *corev1.Probe {
 			port = intstr.FromInt32(cp.ContainerPort)
 		}
 	}
+	if r.Chance(1, 15) {
+		port = intstr.FromString("no-such-port") // a named port no container declares
+	}
 	switch r.Intn(5) {
 	case 0, 1:
 		p.HTTPGet = &corev1.HTTPGetAction{Path: wire.Pick(r, []string{"/healthz", "/ready", "/"}), Port: port}
+		if r.Chance(1, 8) {
+			p.HTTPGet.Host = wire.Pick(r, []string{"127.0.0.1", "example.com"})
+		}
 		if r.Chance(1, 3) {
 			p.HTTPGet.Scheme = corev1.URISchemeHTTPS
 		}
@@ -343,7 +356,7 @@ func genPod(r *wire.Rng) *corev1.Pod {
 		pod.Spec.Volumes = append(pod.Spec.Volumes, v)
 	}
 	// containers
-	ctrNames := []string{"app", "app2", "worker", "logger", "zz-last", "aa-first"}
+	ctrNames := []string{"app", "app2", "worker", "logger", "zz-last", "aa-first", "a-container-with-a-rather-long-name-of-sixty-three-characters-xx"}
 	usedC := map[string]bool{}
 	nctr := 1 + r.Intn(3)
 	if r.Chance(1, 10) {
@@ -362,7 +375,14 @@ func genPod(r *wire.Rng) *corev1.Pod {
 		pod.Spec.Containers = append(pod.Spec.Containers, corev1.Container{Name: "enable-core-dump", Image: "busybox", Command: []string{"sh", "-c", "ulimit -c unlimited"}})
 	}
 	if r.Chance(1, 40) {
-		pod.Spec.InitContainers = append(pod.Spec.InitContainers, corev1.Container{Name: wire.Pick(r, []string{"istio-validation", "enable-core-dump"}), Image: "auto"})
+		n := wire.Pick(r, []string{"istio-validation", "enable-core-dump"})
+		dup := false
+		for _, c := range pod.Spec.Containers {
+			dup = dup || c.Name == n
+		}
+		if !dup { // container names are unique across containers and initContainers
+			pod.Spec.InitContainers = append(pod.Spec.InitContainers, corev1.Container{Name: n, Image: "auto"})
+		}
 	}
 	if r.Chance(1, 20) {
 		pod.Spec.EphemeralContainers = []corev1.EphemeralContainer{{EphemeralContainerCommon: corev1.EphemeralContainerCommon{Name: "debugger", Image: "busybox", Stdin: true}}}
@@ -378,6 +398,9 @@ func genPod(r *wire.Rng) *corev1.Pod {
 		}
 		if r.Chance(1, 3) {
 			c.Env = []corev1.EnvVar{{Name: "USER_ENV", Value: "1"}}
+			if r.Chance(1, 2) {
+				c.Env = append(c.Env, corev1.EnvVar{Name: "USER_ENV2", Value: "2"}, corev1.EnvVar{Name: "ISTIO_META_USER", Value: "u"})
+			}
 		}
 		if r.Chance(1, 4) {
 			c.Lifecycle = &corev1.Lifecycle{PreStop: &corev1.LifecycleHandler{Exec: &corev1.ExecAction{Command: []string{"sleep", "5"}}}}
@@ -441,8 +464,8 @@ func genPod(r *wire.Rng) *corev1.Pod {
 	if r.Chance(1, 8) {
 		ann["sidecar.istio.io/inject"] = wire.Pick(r, []string{"true", "false", "true", "false", "", "maybe"})
 	}
-	if r.Chance(1, 5) {
-		ann["inject.istio.io/templates"] = wire.Pick(r, []string{"sidecar", "gateway", "grpc-agent", "grpc-simple", "nonexistent", "custom", "spire",
+	if r.Chance(1, 3) {
+		ann["inject.istio.io/templates"] = wire.Pick(r, []string{"sidecar", "gateway", "gateway", "grpc-agent", "grpc-agent", "grpc-simple", "grpc-simple", "nonexistent", "custom", "custom", "spire", "spire",
 			"sidecar,custom", "sidecar, custom", "myalias", "waypoint", "kube-gateway", "agentgateway", "agentgateway-waypoint"})
 	}
 	if r.Chance(1, 12) {
@@ -481,6 +504,13 @@ func genPod(r *wire.Rng) *corev1.Pod {
 	if r.Chance(1, 6) {
 		ann["sidecar.istio.io/nativeSidecar"] = wire.Pick(r, []string{"true", "false"})
 	}
+	if r.Chance(1, 10) {
+		ann["sidecar.istio.io/nativeSidecar"] = wire.Pick(r, []string{"yes", "True", "", "FALSE", "1"}) // the templates read: anything but "false"
+	}
+	if strings.Contains(ann["inject.istio.io/templates"], "custom") {
+		// the test-only `custom` template of testdata patches istio-proxy under `containers`: not combined with the native placement
+		ann["sidecar.istio.io/nativeSidecar"] = "false"
+	}
 	if nativeUserProxy {
 		ann["sidecar.istio.io/nativeSidecar"] = "true"
 		delete(ann, "inject.istio.io/templates")
@@ -493,8 +523,12 @@ func genPod(r *wire.Rng) *corev1.Pod {
 		ann["traffic.sidecar.istio.io/includeOutboundIPRanges"] = "10.0.0.0/8"
 	}
 	if r.Chance(1, 6) {
-		ann["prometheus.io/scrape"] = "true"
-		ann["prometheus.io/port"] = wire.Pick(r, []string{"9090", "15020", "80"})
+		ann["prometheus.io/scrape"] = wire.Pick(r, []string{"true", "true", "true", "false"})
+		ann["prometheus.io/port"] = wire.Pick(r, []string{"9090", "15020", "80", "9090", "0x50", "http"})
+		if r.Chance(1, 6) {
+			ann["prometheus.io.scrape"] = "true" // the sanitized spelling next to the regular one
+			ann["prometheus_io_port"] = "9091"
+		}
 		if r.Chance(1, 2) {
 			ann["prometheus.io/path"] = "/metrics"
 		}
